@@ -22,6 +22,7 @@ def run(cx):
     m = cx.m
     pv = Prov(m, "value")
     cx.rule("C10.R1a", "K4", "memory doc(): one key per row field, key k is filled from self.k")
+    cx.rule("C10.R1g", "K2", "memory create / update store the whole document of the record under its id (update replaces, never merges)")
     cx.rule("C10.R1b", "K4", "SQLite from_row: every row field is read from the column of the same name")
     cx.rule("C10.R1c", "K4", "SQLite create: column list and value list agree position by position and cover every field")
     cx.rule("C10.R1d", "K4", "SQLite update: every (column, value) pair agrees and every field but id is updated")
@@ -45,6 +46,7 @@ def run(cx):
                 if k is None:
                     raise Anchor("doc() key is not a string literal in %s at %s" % (f.short, call.loc))
                 seen[k] = (src, call)
+        oks = [b for b, k in f.exit_defs() if k == "OK"]
         for fld in fields:
             if fld not in seen:
                 cx.ob("C10.R1a", "mem:%s:%s" % (c, fld), False,
@@ -52,8 +54,13 @@ def run(cx):
                       keys=sorted(seen))
             else:
                 src, call = seen[fld]
-                cx.ob("C10.R1a", "mem:%s:%s" % (c, fld), src == fld,
-                      "memory row key `%s` of `%s` is filled from self.%s" % (fld, c, src), call.loc)
+                always = all(f.dominates(call.b, b) for b in oks)
+                if not always:
+                    cx.ob("C10.R1a", "mem:%s:%s" % (c, fld), False,
+                          "memory row key `%s` of `%s` is inserted only on some paths of doc(): a record without it loses the key (update cannot clear it, filters on it fail)" % (fld, c), call.loc)
+                else:
+                    cx.ob("C10.R1a", "mem:%s:%s" % (c, fld), src == fld,
+                          "memory row key `%s` of `%s` is filled from %s" % (fld, c, ("self." + src) if src else root_str(pv.root(f, call.args[2]))), call.loc)
         for k in seen:
             if k not in fields:
                 cx.ob("C10.R1a", "mem:%s:+%s" % (c, k), False, "memory row of `%s` has key `%s` that is no field of the row type" % (c, k), seen[k][1].loc)
@@ -181,6 +188,7 @@ def run(cx):
     cx.floor("C10.R1e", 12)
     cx.floor("C10.R1f", 6)
 
+    r1g_mem_store(cx)
     if cx.tier == "thorough":
         postgres_sibling(cx)
     r2_mem(cx)
@@ -397,3 +405,59 @@ def postgres_sibling(cx):
                     bad += 1
                     cx.note("sibling acts_store_postgres: row field `%s.%s` is read from column `%s` (%s) - same construct as the repaired SQLite mapper" % (c, fld, cols[0], gets[0].loc))
     cx.note("thorough: Postgres sibling cross-check: %d field reads compared, %d disagree" % (n, bad))
+
+
+def r1g_mem_store(cx):
+    m = cx.m
+    pa = Prov(m, "alias")
+    cr = m.one(r"^<acts::store::db::mem::collect::Collect<T> as acts::store::DbCollection>::create$")
+    ins = [c for c in cr.calls() if re.search(r"BTreeMap::<.*>::insert$", c.q)]
+    ok = False
+    if len(ins) == 1:
+        k = Prov(m, "value").root(cr, ins[0].args[1])
+        v = Prov(m, "value").root(cr, ins[0].args[2])
+        kid = k[0] == "call" and k[1].endswith("DbDocument::id")
+        vdoc = _from_doc(cr, Prov(m, "value"), v)
+        ok = kid and vdoc
+    cx.ob("C10.R1g", "mem:create", ok, "memory create inserts `data.doc()` under `data.id()`", ins[0].loc if ins else cr.loc())
+    up = m.one(r"^<acts::store::db::mem::collect::Collect<T> as acts::store::DbCollection>::update$")
+    clos = [g for g in m.fns.values() if g.q.startswith(up.q + "::{closure")]
+    replaces = False
+    merges = []
+    for g in clos:
+        for bi, b in enumerate(g.blocks):
+            for s_ in b["s"]:
+                if s_[0] == "A" and s_[1][0] == 2 and s_[1][1] == ["*"] and s_[2][0] == "use":
+                    if _from_doc(g, Prov(m, "value"), Prov(m, "value").root(g, s_[2][1])):
+                        replaces = True
+        for c in g.calls():
+            if re.search(r"HashMap::<.*>::(extend|insert|entry|remove|retain)$|Extend<.*>>::extend$", c.q):
+                merges.append(short_name(c.q))
+    ent = [c for c in up.calls() if re.search(r"BTreeMap::<.*>::entry$", c.q)]
+    keyed = bool(ent) and Prov(m, "value").root(up, ent[0].args[1])[0] == "call" and Prov(m, "value").root(up, ent[0].args[1])[1].endswith("DbDocument::id")
+    cx.ob("C10.R1g", "mem:update", replaces and not merges and keyed,
+          "memory update replaces the stored document of `data.id()` by `data.doc()` as a whole%s" % ("" if not merges else " - but it merges into the old document (%s): keys absent from the new document survive" % merges), up.loc())
+    de = m.one(r"^<acts::store::db::mem::collect::Collect<T> as acts::store::DbCollection>::delete$")
+    rm = [c for c in de.calls() if re.search(r"BTreeMap::<.*>::remove$", c.q)]
+    cx.ob("C10.R1g", "mem:delete", len(rm) == 1 and pa.root(de, rm[0].args[1])[:2] == ("param", 2), "memory delete removes the document with the given id", de.loc())
+    cx.floor("C10.R1g", 3)
+
+
+def _from_doc(f, pv, r, depth=0):
+    if depth > 5:
+        return False
+    if r[0] == "call":
+        if r[1].endswith("DbDocument::doc"):
+            return True
+        c = Call(f, r[2])
+        if T_try(r[1]) and c.args:
+            return _from_doc(f, pv, pv.root(f, c.args[0]), depth + 1)
+        if r[3] and r[3][0] in ("@Continue", "@Ok"):
+            return _from_doc(f, pv, ("call", r[1], r[2], ()), depth + 1)
+    if r[0] == "field":
+        return _from_doc(f, pv, r[1], depth + 1)
+    return False
+
+
+def T_try(q):
+    return q.endswith("Try>::branch") or q.endswith("::unwrap") or q.endswith("::expect")
